@@ -70,6 +70,10 @@ CHECKS = {
          "Single replicas run with batching disabled, size-triggered, age-triggered and with a queue smaller than the burst (one submitter per CID), and with datastore commit failures placed on a size- or age-triggered commit; the final entry per CID must be the last accepted operation, refused operations must have no effect, batches must become visible within W after their trigger, operations accepted after a failed commit must still take effect, and tracker calls must agree with the final state. Two or three replicas take operations while gaters form and heal partitions; once head sets (read from the stores) are equal the pinsets must be equal.",
          "W = max(5 s, 30 x age) is the only wall-clock bound. Equal heads not reached in 30 s = inconclusive. Concurrent-winner choice and tracker-call last-ness under multi-replica delivery are not demanded.",
          "DESIGN.md §4 C02"),
+ "C17": ("exploration", "runtime history monitor: real multi-peer Raft Clusters (real PeerAdd/PeerRemove/Join/watchPeers/Shutdown) on real libp2p hosts; peerset and pinset of every member observed after each step; joiner's state store gated to make 'not caught up yet' a logical fact; Raft indexes read by reflection",
+         "Histories of 4-10 steps on clusters of 1-4 peers: pin/unpin (varied replication factors) at any member, join of a staging peer through any member (optionally with a concurrent write, optionally with its state-store writes held back), removal of a member at leader or follower including leader and self, add-present, remove-absent, remove-last, restart. After every successful change all remaining members must report the same peerset within 30 s; no-ops change nothing; last-peer removal fails; when Join returns or Ready fires the joiner's Raft applied index covers every earlier acknowledged write and its pinset holds them; a removed peer's Done() closes and its Raft data folder is rotated away; with re-pinning on, pins that fell below their minimum were re-allocated off the removed peer before it left; every member's pinset equals the acknowledged pins after each step.",
+         "Bounded progress (30 s) stands in for 'eventually'. peer_watch_interval scaled to 300 ms. Clusters of more than 4 peers and simultaneous membership changes are not driven.",
+         "DESIGN.md §4 C17"),
 }
 
 ALL = ["C%02d" % i for i in range(1, 19)]
